@@ -110,9 +110,10 @@ def coq_vec(v):
 # ------------------------------------------------------------------ the catalogue
 
 class Entry:
-    def __init__(self, cls, cfg, build, kind=EXACT, linear_field="C"):
+    def __init__(self, cls, cfg, build, kind=EXACT, linear_field="C", group=None):
         self.cls, self.cfg, self.build, self.kind = cls, cfg, build, kind
         self.linear_field = linear_field
+        self.group = group or cls       # the quick tier bounds the number of configurations per group
 
     def key(self):
         return {"class": self.cls, **{k: (v if isinstance(v, (int, float, str, bool, type(None))) else repr(v))
@@ -133,9 +134,9 @@ def catalogue(rng, level=0, classes=None):
     """Yield Entry objects.  level 0 = quick lattice, 1 = thorough lattice."""
     out = []
 
-    def add(cls, cfg, build, kind=EXACT):
+    def add(cls, cfg, build, kind=EXACT, group=None):
         if classes is None or cls in classes:
-            out.append(Entry(cls, cfg, build, kind))
+            out.append(Entry(cls, cfg, build, kind, group=group))
 
     dts = [F64, C128]
     # Identity / ScaledIdentity / Diagonal
@@ -354,27 +355,27 @@ def catalogue(rng, level=0, classes=None):
             add("CircularConvolve", dict(shape=xs, h=repr(h.tolist()), ndims=nd, h_center=hc, dtype=np.dtype(dt).name,
                                          hdtype=np.dtype(hdt).name),
                 lambda xs=xs, h=h, nd=nd, hc=hc, dt=dt: linop.CircularConvolve(snp.array(h), xs, ndims=nd, input_dtype=dt, h_center=hc),
-                kind=APPROX)
+                kind=APPROX, group="CircularConvolve(mixed fields)")
     # projected gradients: axes in every order (incl. the 3-cycles, which are not their own inverse), equal and
     # unequal axis lengths, extra (batch) axes, explicit centre, subsets of the local axes, central differences
     pol = [dict(shape=(3, 4), axes=(1, 0)), dict(shape=(3, 3), axes=(1, 0), center=(0.5, 1.0)), dict(shape=(2, 3, 3), axes=(2, 0)),
            dict(shape=(3, 4), cdiff=True), dict(shape=(4, 3), center=(1.0, 1.0))]
     for c in pol:
         add("PolarGradient", dict(c), lambda c=c: PolarGradient(c["shape"], axes=c.get("axes"), center=c.get("center"),
-                                                               cdiff=c.get("cdiff", False), input_dtype=F64), kind=APPROX)
+                                                               cdiff=c.get("cdiff", False), input_dtype=F64), kind=APPROX, group="PolarGradient(axes)")
     cyl = [dict(shape=(3, 3, 3), axes=(1, 2, 0)), dict(shape=(2, 3, 4), axes=(2, 0, 1)), dict(shape=(3, 2, 3), axes=(0, 2, 1)),
            dict(shape=(2, 3, 2, 2), axes=(3, 1, 2)), dict(shape=(3, 2, 2), angular=False), dict(shape=(2, 3, 2), radial=False, axial=False)]
     for c in cyl:
         add("CylindricalGradient", dict(c), lambda c=c: CylindricalGradient(
             c["shape"], axes=c.get("axes"), angular=c.get("angular", True), radial=c.get("radial", True),
-            axial=c.get("axial", True), input_dtype=F64), kind=APPROX)
+            axial=c.get("axial", True), input_dtype=F64), kind=APPROX, group="CylindricalGradient(axes)")
     sph = [dict(shape=(3, 3, 3), axes=(1, 2, 0)), dict(shape=(3, 3, 3), axes=(2, 0, 1)), dict(shape=(2, 3, 4), axes=(1, 2, 0)),
            dict(shape=(2, 2, 2, 2), axes=(3, 1, 2)), dict(shape=(3, 2, 3), axes=(2, 1, 0)), dict(shape=(2, 3, 2), center=(0.5, 1.0, 0.0)),
            dict(shape=(3, 2, 2), azimuthal=False), dict(shape=(2, 2, 3), polar=False, radial=False), dict(shape=(3, 3, 2), cdiff=True)]
     for c in sph:
         add("SphericalGradient", dict(c), lambda c=c: SphericalGradient(
             c["shape"], axes=c.get("axes"), center=c.get("center"), azimuthal=c.get("azimuthal", True), polar=c.get("polar", True),
-            radial=c.get("radial", True), cdiff=c.get("cdiff", False), input_dtype=F64), kind=APPROX)
+            radial=c.get("radial", True), cdiff=c.get("cdiff", False), input_dtype=F64), kind=APPROX, group="SphericalGradient(axes)")
     return out
 
 
@@ -385,10 +386,15 @@ def rdim(shape, dtype):
     return 2 * n if is_complex(dtype) else n
 
 
-def realify(fn, in_shape, in_dtype):
+def realify(fn, in_shape, in_dtype, real_target=False):
     """Real matrix of the real-linear map fn between realified spaces
-    (complex space of n entries = R^(2n) ordered [re..., im...])."""
+    (complex space of n entries = R^(2n) ordered [re..., im...]).
+    real_target: the codomain is a REAL space; if the implementation returns complex values there only their real
+    parts enter the real inner product Re<.,.> the property is stated in (the stray imaginary part is a declared-
+    dtype matter, C12)."""
     M = dense(fn, in_shape, in_dtype)
+    if real_target and np.iscomplexobj(M):
+        M = M.real
     cplx_out = np.iscomplexobj(M)
     blocks = [M]
     if is_complex(in_dtype):
